@@ -110,10 +110,11 @@ def generate_contract(task):
         return out
     shifts = D.shifts_by_name(c.shifts)
     last = D.shifts_by_name(c.last_terms)
-    qs = D.prepare(r.obligations, shifts_for=shifts, units=c.units, last_for=last)
+    qs = D.prepare(r.obligations, shifts_for=shifts, units=c.units, last_for=last, select_terms=getattr(c, "select_terms", False))
     for q in qs:
         q.kind = "ob"
-    cq = D.prepare(r.canaries, shifts_for=shifts, units=c.units)
+    # a contract whose postcondition is `no normal return` (expect_no_return) has no reachable return by design: its vacuity guard is pre.sat alone
+    cq = [] if getattr(c, "expect_no_return", False) else D.prepare(r.canaries, shifts_for=shifts, units=c.units)
     for q in cq:
         q.kind = "canary"
     pre = Obligation(f"{c.name}/pre.sat", r.pre_hyps, z3.BoolVal(False), r.source_line, kind="canary")
@@ -206,10 +207,12 @@ def finish(rep: Report, level="proof", technique=""):
     n_dis = sum(1 for o in rep.obligations.values() if o["verdict"] == "discharged")
     rep.extra["known_finding_obligations"] = n_known
     code = 0
-    if rep.errors or rep.canary_fail:
+    if rep.errors:
         code = 3
     elif rep.violations:
-        code = 1
+        code = 1  # a replayed / ledger-backed violation outranks a vacuity warning (a function that can no longer return is often the defect itself)
+    elif rep.canary_fail:
+        code = 3
     elif rep.unsupported or rep.undischarged:
         code = 2
     if n_ob == 0 and not rep.bounded and level == "proof" and code == 0:
